@@ -136,6 +136,45 @@ def initLoop (rootPath : Path) (outcome : Path → Outcome) : InitState → List
 def init (rootPath : Path) (root : Tree) (outcome : Path → Outcome) : InitState :=
   initLoop rootPath outcome {} (loadOrder rootPath root)
 
+/-! ## The `--config` run of one hook (`execCommandOutput`, consumed by `loadHook`)
+
+`execCommandOutput` runs `<path> --config` through `(*exec.Cmd).Output()` and hands the error on
+unchanged (`if err != nil { return output, err }`); `loadHook` turns an error into
+"cannot get config for hook '<path>'" and otherwise gives the output to `LoadConfig`. os/exec (modelled,
+library): `Output()` returns a nil error exactly for a process that was started, ran to its end and
+exited with status 0 — a start failure, every other exit status and death by a signal are errors
+(`*exec.ExitError`, whose `ExitCode()` is -1 for a signal). -/
+
+/-- how the `--config` process ended -/
+inductive RunEnd where
+  | notStarted                 -- exec format error, missing interpreter, permission denied …
+  | exited (status : Nat)
+  | signaled (signal : Nat)
+  deriving DecidableEq, Repr
+
+/-- `err != nil` for the error of `hookCmd.Output()` -/
+def cmdErr : RunEnd → Bool
+  | .exited 0 => false
+  | _ => true
+
+/-- `execCommandOutput` + `loadHook`: the error of the run wins whatever was printed; otherwise the
+verdict of `LoadConfig` on the output (`validOutput`) decides. -/
+def loadOutcome (e : RunEnd) (validOutput : Bool) : Outcome :=
+  if cmdErr e then .fail else if validOutput then .ok else .invalid
+
+/-! ## Symbolic links
+
+`filepath.Walk` calls `Lstat`: a symbolic link below the hooks directory is reported to the callback as
+a non-directory entry (never descended, whatever it points to) whose `Mode()` is `ModeSymlink | 0777`
+(Linux: `lrwxrwxrwx`). `CheckExecutablePermissions` looks at `Mode() & 0o111` only, so for the callback a
+link is a file with the permission bits 0777. -/
+
+/-- permission bits `Lstat` reports for a symbolic link -/
+def lstatLinkMode : Nat := 0o777
+
+/-- a symbolic link as the walk sees it -/
+def Tree.link (n : Name) (o : Outcome) : Tree := .file n lstatLinkMode o
+
 /-! ## Specification side: every file of the tree with the directories above it -/
 
 structure Entry where
